@@ -8,6 +8,28 @@ import os, json, vlib, schedlib
 def run(res, tier, seed):
     thorough = tier != 'quick'
     vlib.model_check(res, schedlib.SD, 'Suspend', 'Suspend_fair.cfg', deadlock=False)
+    # owner recall: the model is instantiated with the order of recall_owner's two stores as observed on the running code
+    hexe = vlib.build_harness('h_sched', ['sched/h_sched.cpp'])
+    p = vlib.sh([hexe, 'probe_recall'], timeout=120)
+    try:
+        fact = json.loads([l for l in p.stdout.splitlines() if l.startswith('{')][-1])
+    except Exception:
+        raise vlib.HarnessFailure('recall probe failed: %s' % (p.stdout + p.stderr)[-1500:])
+    res.extra['code_facts'] = fact
+    if fact['recall_order'] not in ('state', 'flag'):
+        print('SPEC-DRIFT property=C20 recall_owner no longer consists of the two stores the Recall model knows (%s); the model is not instantiated' % json.dumps(fact))
+    else:
+        r = vlib.model_check(res, schedlib.SD, 'Recall', 'Recall_%s.cfg' % fact['recall_order'], must_hold=False, deadlock=False)
+        vlib.tlc_must_hold(r, 'Recall')
+        if r.violation:
+            if fact['recall_order'] == 'state':
+                raise vlib.HarnessFailure('Recall model violates %s with the default store order' % r.violation)
+            res.violation('recall:model:%s' % r.violation, 'recall_owner() publishes m_is_owner_recalled before it marks the stack notified (order observed on the running code); with that order the '
+                          'Recall model lets the owner switch back onto its stack before the state store lands: the late store marks a running stack as notified and its next suspension '
+                          'continues although tbb::task::resume was never called', {'tlc_counterexample': vlib.extract_error_trace(r.out)[-30:], 'fact': fact})
+    rv = vlib.model_check(res, schedlib.SD, 'Recall', 'Recall_flag.cfg', must_hold=False, deadlock=False)
+    if rv.violation != 'OnlyAfterResume':
+        raise vlib.HarnessFailure('vacuity control failed: Recall with the flag published first should violate OnlyAfterResume')
     schedlib.run_scenarios(res, 'C20', 'c20', 120 if not thorough else 2000, seed, threads=(1, 2, 3, 4))     # the 'c20' selection of h_sched includes suspendF3: three suspensions in a row, resumed from a foreign thread, hand-shake words tracked
     # stacks that migrate between an external thread and a real RML worker (a logical thread as well), three suspensions in a row on the same unit, resumed from
     # outside the arena: a continuation is explainable only after its resume call (TraceWake: ResS), every run in a fresh process
